@@ -18,10 +18,22 @@ Digest(P) == <<P.n, P.rooting, P.dist.n, P.dist.sumW, Len(P.dist.counts)>>
 Chain(g, k, P) == IF Digest(P) # g.dig[k] THEN V("C06.Machinery", "state of the array changed between logged calls") ELSE None
 Link(e) == IF e.from \notin 1..Len(st.G) \/ e.to # Len(st.G) + 1 THEN V("C06.Machinery", "state ids out of sequence") ELSE None
 
+\* arrays the call did not touch - operands of earlier merges included - must still be what they were: same digest,
+\* and a summary that is still the summary of their own bag of trees
+Others(e, g) ==
+    Flatten([h \in 1..Len(e.others) |->
+        LET o == e.others[h][1]  P == e.others[h][2]
+            v == JudgeDist(P, g.T[o], st.D, st.set) IN
+        (IF Digest(P) # g.dig[o] THEN V("C06.SummaryDependsOnBagOnly", "array-not-involved-in-the-call:changed") ELSE None)
+        \o [i \in 1..Len(v) |-> [clause |-> v[i].clause, class |-> "array-not-involved-in-the-call:" \o v[i].class]]])
+ResyncOthers(e, dig) == [o \in 1..Len(dig) |->
+    IF \E h \in 1..Len(e.others) : e.others[h][1] = o
+      THEN Digest(e.others[CHOOSE h \in 1..Len(e.others) : e.others[h][1] = o][2]) ELSE dig[o]]
+
 JudgeAdd(e) ==
     LET g == st.G[e.from]  k == e.k  T == g.T[k]  i == IF e.i < 0 THEN Len(T) ELSE e.i
         xr == AddRaises(e.pre.rooting, st.D[e.t])                                             \* validate_rooting
-    IN Chain(g, k, e.pre)
+    IN Chain(g, k, e.pre) \o Others(e, g)
        \o (IF e.raised # xr
              THEN V("C06.AddNeverFailsOnUniformSample", e.api \o ":" \o (IF e.raised = "" THEN "expected:" \o xr ELSE e.raised))
            ELSE IF e.raised # "" THEN None
@@ -30,11 +42,12 @@ JudgeAdd(e) ==
 MergeActions == {"Update", "Extend", "IAdd", "Add"}
 JudgeMerge(e) ==
     LET g == st.G[e.from]  k == e.k  j == e.j  T == g.T[k] \o g.T[j] IN
-    Chain(g, k, e.pre) \o Chain(g, j, e.prej)
+    Chain(g, k, e.pre) \o Chain(g, j, e.prej) \o Others(e, g)
     \o (IF ~PCompat(e.pre, e.prej) THEN None           \* outside the property (never generated: uniform samples)
         ELSE IF e.raised # "" THEN V("C06.MergeNeverFails", Shape(e.pre) \o "<-" \o Shape(e.prej) \o ":" \o e.raised)
         ELSE JudgePost(e.pre, e.post, e.prej.n, T, st.D, st.set, st.r))
     \o (IF e.postj # e.prej THEN V("C06.MergeLeavesOperandUnchanged", e.action) ELSE None)
+    \o (IF e.action = "Add" /\ e.olda # e.pre THEN V("C06.MergeLeavesOperandUnchanged", "Add:left-operand") ELSE None)
 
 JudgeQuery(e) == LET g == st.G[e.from] IN
     Chain(g, e.k, e.st) \o JudgeQueries(g.T[e.k], st.D, st.set, st.r, e.st, e, st.ref)
@@ -57,11 +70,11 @@ NextSt(e) ==
       [] e.action = "AddTree" /\ Link(e) = None ->
            LET g == st.G[e.from] IN
            [st EXCEPT !.G = Append(@, [g EXCEPT !.T[e.k] = IF e.raised = "" THEN InsertAt(@, IF e.i < 0 THEN Len(@) ELSE e.i, e.t) ELSE @,
-                                                !.dig[e.k] = Digest(e.post)])]
+                                                !.dig = [ResyncOthers(e, @) EXCEPT ![e.k] = Digest(e.post)]])]
       [] e.action \in MergeActions /\ Link(e) = None ->
            LET g == st.G[e.from] IN
            [st EXCEPT !.G = Append(@, [g EXCEPT !.T[e.k] = IF e.raised = "" THEN @ \o g.T[e.j] ELSE @,
-                                                !.dig[e.k] = Digest(e.post), !.dig[e.j] = Digest(e.postj)])]
+                                                !.dig = [ResyncOthers(e, @) EXCEPT ![e.k] = Digest(e.post), ![e.j] = Digest(e.postj)]])]
       [] OTHER -> st
 
 Init == l = 1 /\ bad = <<>> /\ st = [D |-> <<>>]
